@@ -124,6 +124,8 @@ def explore(mod, cnd, pins, budget, out):
         return r
     z3.Solver.check = counting_check
 
+    from vlib import engine_ext
+    engine_ext.install()
     if hasattr(mod, 'setup'):
         mod.setup('symbolic')
 
